@@ -187,6 +187,25 @@ def run(tier):
         if b[2].get("ok") or b[1] != b[3] or b[4].get("out") != "fine":
             C.violation(dict(key, history="on-top"), "adding an unknown %s at %s on top of a valid instance: accepted=%s, instance changed=%s, t.html renders %r" % (
                 v["kind"], v["pos"], b[2].get("ok"), b[1] != b[3], b[4].get("out")), {"job": pjobs[2 * i + 1], "result": b})
+    # ---- accepted sets that recurse (MC_Recur): component calls and includes in every combination; the render must
+    #      come back (text or error value), whole, by block-less entry, and each component through the API
+    import recur_glue
+    rq = vp.tlc("MC_Recur", "MC_Recur", workers=4, timeout=600, name="c07-recur")
+    C.add_tlc(rq, "MC_Recur (bounded call stack on accepted call graphs)")
+    rv = [v for v in rq.tags["VEC"] if v["res"] != "refused"]
+    rjobs = [{"cfg": {}, "ctx": {}, "steps": [{"op": "add", "tpls": recur_glue.templates(v["g"])}, {"op": "render", "name": v["entry"]},
+                                               {"op": "render_component", "name": "c", "auto": True}, {"op": "render_component", "name": "d", "auto": True}]} for v in rv]
+    rres = vp.run_jobs(rjobs, tag="c07-recur", timeout=900, may_abort=True)
+    for v, b, job in zip(rv, rres, rjobs):
+        C.count(3)
+        if any(o != "none" for o in v["g"].values()):
+            C.nontrivial(["recur", v["g"], v["entry"]])
+        if any(x.get("panic") or x.get("abort") for x in b):
+            C.violation({"kind": "recursion-abort", "graph": v["g"], "entry": v["entry"]}, "rendering %s of the accepted call graph %s killed the process / panicked: %s" % (
+                v["entry"], v["g"], [x.get("msg") or x.get("rc") for x in b if x.get("panic") or x.get("abort")][:1]), {"job": job, "result": b})
+        elif (v["res"] == "text") != bool(b[1].get("ok")):
+            C.violation({"kind": "recursion-outcome", "graph": v["g"], "entry": v["entry"]}, "call graph %s from %s: engine %s, specification %s" % (
+                v["g"], v["entry"], "renders" if b[1].get("ok") else "fails (%s)" % (b[1].get("msg") or b[1].get("disp", ""))[:80], v["res"]), {"job": job, "result": b})
     C.assumptions += ["abstract contexts over-approximate: every name load / call result is any of 18 abstract values; loops run 0, 1 or 2+ times",
                       "calls into blocks / super / components / includes are verified modularly (each chunk from an empty stack)",
                       "panics on values outside the weird-value universe are not excluded"]
